@@ -929,11 +929,7 @@ func (o Object) Equals(with Item) bool {
 			}
 		}
 		if !IsNil(w.URL) {
-			if IsNil(o.URL) {
-				result = false
-				return nil
-			}
-			if !w.URL.GetLink().Equals(o.URL.GetLink(), false) {
+			if !ItemsEqual(o.URL, w.URL) {
 				result = false
 				return nil
 			}
